@@ -243,7 +243,7 @@ def run_unit(unit, ctx):
     # the same symbolic model (a module-level singleton) compiled once more in this process with a slightly
     # refined calibration (g 9.80665 -> 9.80668, a bias moved by 1e-6): the new model follows the new map
     try:
-        cal2 = {s: (p0[s.name] * (1.0 + 3e-6) + 2e-6) for s in cal_syms}
+        cal2 = {s: p0[s.name] * (1.0 + 3e-6) for s in cal_syms}   # purely relative: every entry moves a little
         model2 = python.compile(sm, cal2, config={"common_subexpression_elimination": cse})
         for _ in range(3):
             p, norm, kind = gen_point(rng, names)
